@@ -16,7 +16,8 @@ RULE = ("(A) fault sweep: for every operation kind x class x {unbuffered, inside
         "buffer_backend()} thread A runs the operation while a fault is injected - OSError(EIO) at the j-th "
         "file-system event of the operation for every j (audit hook), EFBIG after a byte prefix of the write "
         "(RLIMIT_FSIZE), MemoryError at the same points, an unparsable (also: too deeply nested -> RecursionError) or wrong-kind file, a value rejected before the lock is taken, a value "
-        "rejected inside the locked merge, a value only the encoder rejects (10**5000). After A has finished, "
+        "rejected inside the locked merge, a value only the encoder rejects (10**5000), and no fault at all; the operations "
+        "include iterators / views that the caller keeps without exhausting them. After A has finished, "
         "the cooperative lock shims are inspected (a lock still owned by A = leak) and thread B performs "
         "operations on the same file through another object, on another file and on another class; B being "
         "unable to run (no enabled thread) = violation. (B) deadlock search: small programs mixing operations "
@@ -40,12 +41,13 @@ L_INIT = [1, "x", {"p": 1}, [5, 6]]
 
 D_OPS = [("setitem", ["k", {"v": 1}]), ("delitem", ["a"]), ("pop", ["a"]), ("popitem", []),
          ("update", ["mapping", {"k": 2}, None]), ("setdefault", ["k", 3]), ("clear", []),
-         ("reset", [{"z": 1}]), ("getitem", ["a"]), ("call", []), ("len", [])]
+         ("reset", [{"z": 1}]), ("getitem", ["a"]), ("call", []), ("len", []), ("iter_partial", []),
+         ("keys_partial", []), ("values_partial", []), ("items_partial", [])]
 L_OPS = [("append", [7]), ("insert", [0, 7]), ("extend", [[7, 8]]), ("iadd", [[7]]), ("setitem", [0, 9]),
          ("delitem", [0]), ("pop", []), ("remove", [1]), ("reverse", []), ("clear", []), ("reset", [[3]]),
-         ("getitem", [0]), ("call", []), ("len", [])]
-NESTED = {"dict": [("append", ["l"], [5]), ("setitem", ["c"], ["q", 2]), ("clear", ["c"], []), ("reset", ["l"], [[0]])],
-          "list": [("setitem", [2], ["q", 2]), ("append", [3], [7]), ("clear", [2], []), ("reset", [3], [[0]])]}
+         ("getitem", [0]), ("call", []), ("len", []), ("iter_partial", []), ("reversed_partial", [])]
+NESTED = {"dict": [("iter_partial", ["c"], []), ("iter_partial", ["l"], []), ("append", ["l"], [5]), ("setitem", ["c"], ["q", 2]), ("clear", ["c"], []), ("reset", ["l"], [[0]])],
+          "list": [("iter_partial", [2], []), ("iter_partial", [3], []), ("setitem", [2], ["q", 2]), ("append", [3], [7]), ("clear", [2], []), ("reset", [3], [[0]])]}
 
 
 def plan(tier, seed):
@@ -100,9 +102,18 @@ class World:
         shutil.rmtree(self.scratch, ignore_errors=True)
 
 
+PARTIAL = {"iter_partial": iter, "reversed_partial": reversed, "keys_partial": lambda n: iter(n.keys()),
+           "values_partial": lambda n: iter(n.values()), "items_partial": lambda n: iter(n.items())}
+
+
 def _do(node, op, path, args):
     for k in path:
         node = node[k]
+    if op in PARTIAL:
+        # a lazily evaluated result that the caller keeps without exhausting it (returned, so it stays referenced
+        # while the lock shims are inspected and thread B probes)
+        it = PARTIAL[op](node)
+        return it, next(it, None)
     out = model.run_sut(node, op, [model.decode(a) for a in args])
     if out.kind == "exc":
         raise out.exc
@@ -140,6 +151,8 @@ def fault_case(world, mode, op, path, args, fault, out, sig):
     elif kind == "wrong_kind":
         world.p.outside_write([1, 2] if info.kind == "dict" else {"a": 1}, bump=True)
         fired["v"] = True
+    elif kind == "none":
+        fired["v"] = True  # the fault-free case: the operation itself must not keep a lock
     elif kind == "deep_nesting":
         # an unparsable file of another kind: the decoder gives up with RecursionError
         world.p.outside_write(None, raw=b"[" * 200000 + b"]" * 200000, bump=True)
@@ -254,7 +267,7 @@ def part_a(spec, out):
     keys = []
     try:
         for op, path, args in ops:
-            faults = [("unparsable",), ("wrong_kind",), ("deep_nesting",), ("encoder_only",), ("rejected_own",),
+            faults = [("none",), ("unparsable",), ("wrong_kind",), ("deep_nesting",), ("encoder_only",), ("rejected_own",),
                       ("rejected_in_update",)]
             # number of fs events of the fault-free op
             world.fresh()
